@@ -80,7 +80,7 @@ def state_cases(gen: Any, rng: Any, n_classes: int, n_inst: int) -> dict[str, An
                     stats["arrow_used"] += 1
                 # the property's own predicate
                 if not H.deep_eq(y, x):
-                    violations.append({"key": ("compact" if first == 1 else "arrow") + "-state-bytes-roundtrip-differs", "what": "state read back from its bytes differs from the state written",
+                    violations.append({"key": ("compact-state-bytes-roundtrip-differs" if first == 1 else H.finding_key(gen, cd, x, y)), "what": "state read back from its bytes differs from the state written",
                                        "replay": {"class": describe(gen, cd), "instance": repr(x)[:600], "restored": repr(y)[:600], "first_byte": first}})
                 if first == U.COMPACT_MARKER[0]:
                     ya = cd.pycls.deserialize_from_bytes(x.serialize_to_bytes())
@@ -89,7 +89,7 @@ def state_cases(gen: Any, rng: Any, n_classes: int, n_inst: int) -> dict[str, An
                                            "replay": {"class": describe(gen, cd), "instance": repr(x)[:600], "compact": repr(y)[:600], "arrow": repr(ya)[:600]}})
             except Exception as e:  # noqa: BLE001 - the outcome is the observation
                 out = (H.classify(e), "VNone")
-                violations.append({"key": "state-bytes-roundtrip-raises-" + type(e).__name__, "what": f"in-domain state cannot be written / read back: {type(e).__name__}: {str(e)[:200]}",
+                violations.append({"key": H.finding_key(gen, cd, x, exc=e), "what": f"in-domain state cannot be written / read back: {type(e).__name__}: {str(e)[:200]}",
                                    "replay": {"class": describe(gen, cd), "instance": repr(x)[:600]}})
             ts = "[" + "; ".join(f"cls_{u.cid}" for u in union) + "]"
             inp = f"(ce_all, {ts}, cls_{cd.cid}, {gen.render(x, ('c', cd.cid))})"
